@@ -58,6 +58,10 @@ class Harness:
             if self.scn.startswith("tiny"):
                 paths = paths[:1]
             p.maps = [c13.mk_mapping(i + (0 if p is pa else 5), pa_, sc_, ()) for i, pa_ in enumerate(paths)]
+            if self.scn.startswith("tiny"):
+                # (an old kernel's short record: fewer lines per mapping, fewer points, one more pre-emption affordable)
+                for m in p.maps:
+                    m.omit |= {k for k in m.kb if k not in ("Size", "Rss", "Pss", "Swap")}
             p.rollup = True
         return w, pa, pb
 
